@@ -543,6 +543,9 @@ package modfile
 //@   ensures r.Indirect == indirect
 //@   ensures [C16] marker_matches_flag: ISIND(r.Syntax) == indirect
 //@   ensures forall q *Require {q.Indirect} :: q != r ==> q.Indirect == old(q.Indirect)
+//@   loop 0:
+//@     invariant line == r.Syntax && line != nil && !indirect && r.Indirect == indirect
+//@     invariant forall q *Require {q.Indirect} :: q != r ==> q.Indirect == old(q.Indirect)
 //@   uses fields_count fields_marker_only fields_marker_first
 //@   props C08 C15 C16
 
